@@ -18,7 +18,7 @@ func init() {
 			"R02-frames — OP_CALL's frame literal and callR's agree field by field on how Base/LocalBase/ReturnBase/NArgs/NRet are derived, OP_RETURN pops exactly one frame on every non-coroutine path, and every frame push goes through the overflow guard (R12-full shared). " +
 			"R01-operands shared — every handler (OP_SELF for method-call sugar in particular) reads its RK operands before its first register write. R02-copies — every go-inlined copy of a frame/registry helper (initCallFrame, pushCallFrame, closeUpvalues, registry.Set/SetTop/CopyRange/checkSize …; ~130 blocks in state.go and vm.go) has the same statements as the definition it names, so the host-side call path (callR → pushCallFrame) and the VM's CALL/TAILCALL paths set a frame up alike. R02-select — select's range error is raised exactly for a normalised index below 1. NOT decided: argument padding/truncation, vararg relocation, select/unpack, result counts — arithmetic on run-time counts.",
 		Trusted: []string{},
-		Rules:   []func(*Ctx){rulePadCountIsCMinusOne, ruleXpcallCountsFromItsTop, ruleVarargTempGuard, ruleNoSentinelDefaults, ruleParenthesisedReturnCount, ruleAssignResultsByPosition, ruleLastOfRange, ruleTailFrame, ruleFrames, ruleFull, ruleOperandOrder, ruleInlineCopies, ruleSelectBounds, ruleFrameCoversParameters, ruleTailMovesWholeFrame, ruleReturnPadding, ruleSetlistBatchNumber},
+		Rules:   []func(*Ctx){ruleSetlistOffsetAfterBatchRead, rulePadCountIsCMinusOne, ruleXpcallCountsFromItsTop, ruleVarargTempGuard, ruleNoSentinelDefaults, ruleParenthesisedReturnCount, ruleAssignResultsByPosition, ruleLastOfRange, ruleTailFrame, ruleFrames, ruleFull, ruleOperandOrder, ruleInlineCopies, ruleSelectBounds, ruleFrameCoversParameters, ruleTailMovesWholeFrame, ruleReturnPadding, ruleSetlistBatchNumber},
 	})
 }
 
